@@ -102,7 +102,7 @@ func (c *Ctx) Mine(i int) bool {
 
 // Want tells whether the case id is to be run (replay filter).
 func (c *Ctx) Want(caseID string) bool {
-	return c.Only == "" || c.Only == caseID
+	return c.Only == "" || c.Only == caseID || (strings.HasPrefix(c.Only, "~") && strings.Contains(caseID, c.Only[1:]))
 }
 
 // Begin journals the case before the library is called.
